@@ -152,7 +152,18 @@ type C06Op struct {
 	Slot   int    `json:"slot,omitempty"` // reexec: index of an earlier get op
 }
 
+// C06Inter is the interleaved variant: two clients, one per same-shape schema,
+// issue the same request through one cache on the scheduler (double misses and
+// racing stores around a schema replacement).
+type C06Inter struct {
+	Reqs   []int    `json:"reqs"`
+	Park   []string `json:"park"`
+	Sticky int      `json:"stickiness"`
+	Rounds int      `json:"rounds"`
+}
+
 type C06Scn struct {
+	Inter *C06Inter `json:"inter,omitempty"`
 	MaxEntries    int     `json:"max_entries"`
 	MaxQueryBytes int     `json:"max_query_bytes"`
 	Normalize     bool    `json:"normalize"`
@@ -180,6 +191,21 @@ func (p c06) Gen(seed uint64, enum int, tier string) json.RawMessage {
 		return mustJSON(s)
 	}
 	r := NewRNG(seed)
+	if r.Chance(12) {
+		in := &C06Inter{Sticky: []int{0, 30, 60}[r.Intn(3)], Rounds: 1 + r.Intn(2)}
+		for n := 1 + r.Intn(2); n > 0; n-- {
+			in.Reqs = append(in.Reqs, r.Intn(len(c06Reqs)))
+		}
+		for _, c := range []string{"cache.lookup.lock", "cache.store.lock", "client", "plan.exec.start"} {
+			if r.Chance(75) {
+				in.Park = append(in.Park, c)
+			}
+		}
+		s.Inter = in
+		s.Normalize = r.Chance(50)
+		s.MaxEntries = []int{1, 2, 0}[r.Intn(3)]
+		return mustJSON(s)
+	}
 	s.MaxEntries = []int{1, 1, 2, 3, 4, 0}[r.Intn(6)]
 	s.MaxQueryBytes = []int{0, 0, 0, 40}[r.Intn(4)]
 	s.Normalize = r.Chance(60)
@@ -305,6 +331,9 @@ func (c06) Run(t TestingT, scn json.RawMessage, tape *Tape) *Outcome {
 	}
 	o := &Outcome{}
 	verifmo.Set(verifmo.Sorted, 0)
+	if sc.Inter != nil {
+		return c06RunInterleaved(t, &sc, scn, tape)
+	}
 	worlds := []*World{NewWorld("A"), NewWorld("B")}
 	var cache *graphql.PlanCache
 	if !sc.NilCache {
@@ -413,5 +442,77 @@ func (c06) Run(t TestingT, scn json.RawMessage, tape *Tape) *Outcome {
 	o.Trace = log
 	o.Nontrivial = lastHits > 0 || len(sc.Ops) > 2
 	o.Sample = map[string]interface{}{"scenario": sc, "log": log}
+	return o
+}
+
+func c06RunInterleaved(t TestingT, sc *C06Scn, scn json.RawMessage, tape *Tape) *Outcome {
+	o := &Outcome{}
+	in := sc.Inter
+	s := NewSim(tape)
+	s.Stickiness = in.Sticky
+	for _, c := range in.Park {
+		s.ParkSites[c] = true
+	}
+	type res struct{ got, want, desc string }
+	results := map[string][]res{}
+	pan := Bubble(t, s, func() {
+		worlds := []*World{NewWorld("A"), NewWorld("B")}
+		cache := graphql.NewPlanCache(graphql.PlanCacheOptions{MaxEntries: sc.MaxEntries, Normalize: sc.Normalize})
+		for wi, w := range worlds {
+			w := w
+			name := fmt.Sprintf("c%d", wi+1)
+			s.Spawn(name, func(tc *TaskCtx) {
+				n := 0
+				for round := 0; round < in.Rounds; round++ {
+					for _, ri := range in.Reqs {
+						rq := c06Reqs[ri]
+						var vars map[string]interface{}
+						if len(rq.Vars) > 0 {
+							vars = rq.Vars[0]
+						}
+						s.Gate(name, "client:get", rq.Name)
+						pr := cache.Get(&w.Schema, rq.Query, rq.Op)
+						var got string
+						if len(pr.Errors) > 0 || pr.Plan == nil {
+							got = MarshalResult(&graphql.Result{Errors: pr.Errors})
+						} else {
+							got = MarshalResult(graphql.ExecutePlan(pr.Plan, graphql.ExecuteParams{Schema: w.Schema, Args: mergeArgs(vars, pr.SynthArgs), Context: WithTask(c06Ctx(w, rq.Query, rq.Faults), name)}))
+						}
+						tc.Out[fmt.Sprintf("g%d", n)] = got
+						tc.Out[fmt.Sprintf("w%d", n)] = c06Scratch(w, rq, vars)
+						tc.Out[fmt.Sprintf("d%d", n)] = rq.Name + "@" + w.ID
+						n++
+					}
+				}
+				tc.Out["n"] = fmt.Sprint(n)
+			})
+		}
+		s.Run()
+	})
+	o.AbsorbSim(s)
+	o.KeepTrace(s)
+	o.Nontrivial = s.Switches > 0
+	o.Probe("interleaved-two-schemas")
+	o.Sample = map[string]interface{}{"scenario": sc, "switches": s.Switches}
+	_ = results
+	if pan != nil || s.Stuck || s.CapHit {
+		o.Violate("C06/interleaved-stuck", "the interleaved clients did not finish: %v stuck=%v", pan, s.StuckOn)
+		return o
+	}
+	for _, name := range []string{"c1", "c2"} {
+		outs := s.Outs[name]
+		for i := 0; outs != nil && outs[fmt.Sprintf("g%d", i)] != ""; i++ {
+			got, want := outs[fmt.Sprintf("g%d", i)], outs[fmt.Sprintf("w%d", i)]
+			if got == want {
+				continue
+			}
+			reqName, _, _ := strings.Cut(outs[fmt.Sprintf("d%d", i)], "@")
+			if stripLocations(got) == stripLocations(want) {
+				o.Violate("C06/error-locations-of-other-request", "interleaved %s: error locations of another request's text\n cache: %s\n fresh: %s", outs[fmt.Sprintf("d%d", i)], got, want)
+			} else {
+				o.Violate("C06/differs@"+reqName, "interleaved clients on two same-shape schemas: Get+ExecutePlan of %s differs from executing it from scratch\n cache: %s\n fresh: %s", outs[fmt.Sprintf("d%d", i)], got, want)
+			}
+		}
+	}
 	return o
 }
